@@ -125,6 +125,109 @@ def fixed_cases(reg):
     return cases
 
 
+# --------------------------------------------------------------------------------------------
+# Listener::Archive with its own tables (con::set<const_str, ConList>, Container<SafePtr<Listener>>)
+#
+# The order in which the writer walks a hash table is a fact of the real table, so this stage is two-pass: the harness
+# builds the listener from a list of insertions, prints the archive, the tables as the writer walks them and the tables
+# read back in a fresh script context; the model is then given the written view and must produce the same bytes
+# (listenerCalls / encode) and, with its data-directed reader (readListener), the same tables.
+
+def gen_lis(rng):
+    n = rng.choice([0, 1, 2, 3, 6, 12])
+    k = rng.randint(0, n)
+    nins = rng.choice([0, 1, 2, 3, 5, 8, 13, 21, 40])
+    keys = [bytes(rng.choice(archgen.TEXT) for _ in range(rng.randint(1, 10))) for _ in range(rng.choice([1, 2, 3, 6, 12, 30]))]
+    keys += [b"delete", b"remove", b"self"][:rng.randint(0, 3)]          # predefined strings of every dictionary
+    toks = ["lis", str(k), str(n)]
+    for _ in range(nins):
+        toks += [rng.choice("nnwe"), rng.choice(keys).hex(), str(rng.randint(0, n) if rng.random() < 0.9 else 0)]
+    return " ".join(toks)
+
+
+def norm_view(v):
+    """a view with the entries of every table sorted by key (the read-back order is the reader's own)"""
+    out = []
+    for tab in v.split(" ; "):
+        t = tab.split(" ")
+        if t == ["-"]:
+            out.append(None)
+            continue
+        hdr, es, i = tuple(int(x) for x in t[:4]), [], 4
+        while i < len(t):
+            c = int(t[i + 1])
+            es.append((t[i], tuple(int(x) for x in t[i + 2:i + 2 + c])))
+            i += 2 + c
+        out.append((hdr, sorted(es)))
+    return out
+
+
+def tables_judge(spec, impl, model):
+    """None | (verdict, signature, why)"""
+    if impl.count(" | ") != 2:
+        return "violation", "tables:impl:" + impl[:40], "harness answer: " + impl[:200]
+    hx, wv, rb = impl.split(" | ")
+    if rb.startswith("err"):
+        return "violation", "tables:failed-read", "read-back of an intact Listener archive failed: " + rb
+    if norm_view(rb) != norm_view(wv):
+        return "violation", "tables:roundtrip", "tables read back differ from the tables written: `%s` vs `%s`" % (rb[:200], wv[:200])
+    if model is None:
+        return None
+    if " | " not in model:
+        return "diff", "diff:tables:model", "model answer: " + model[:200]
+    mh, mr = model.split(" | ")
+    if mh != hx:
+        return "diff", "diff:tables:bytes", "archive bytes differ from the model's encoding of the written tables"
+    if norm_view(mr) != norm_view(rb):
+        return "diff", "diff:tables:readback", "implementation `%s`, proved model `%s`" % (rb[:200], mr[:200])
+    return None
+
+
+def tables_run(ctx, exe, reg, specs):
+    """-> list of (spec, verdict tuple or None), stats"""
+    out, crash, info = archgen.run_impl(exe, [reg] + specs, timeout=300)
+    res = []
+    if crash is not None:
+        i = max(len(out) - 1, 0)
+        res.append((specs[min(i, len(specs) - 1)], ("violation", crash, "implementation crashed / sanitizer report: " + crash)))
+        return res
+    impl = out[1:]
+    mlines = []
+    for sp, a in zip(specs, impl):
+        t = sp.split(" ")
+        mlines.append("lisv %s %s %s" % (t[1], t[2], a.split(" | ")[1]) if a.count(" | ") == 2 else "lisv bad")
+    model = archgen.run_model(mlines)
+    for i, sp in enumerate(specs):
+        res.append((sp, tables_judge(sp, impl[i] if i < len(impl) else "<missing>", model[i] if i < len(model) else "<missing>")))
+    return res
+
+
+def tables_stage(ctx, exe, reg):
+    rng = ctx.rng("tables")
+    n = 200 if ctx.tier == "quick" else 6000
+    fixed = ["lis 0 0", "lis 1 1 n 78 1", "lis 1 3 n 666f6f 1 n 666f6f 2 n 626172 3 w 7a 0 e 64656c657465 3 n 6161 2 n 6262 1 n 6363 1"]
+    specs = fixed + [gen_lis(rng) for _ in range(n)]
+    bad, seen, hist = 0, set(), {"entries": 0, "tables": 0, "pointers": 0, "max_tableLength": 0}
+    for i in range(0, len(specs), 200):
+        for sp, j in tables_run(ctx, exe, reg, specs[i:i + 200]):
+            if j is None:
+                continue
+            bad += 1
+            if j[1] in seen:
+                continue
+            seen.add(j[1])
+            replay = common.save_replay(ctx, {
+                "property": "C10", "kind": "correspondence", "area": AREA, "lines": [sp], "verdict": j[0], "why": j[2],
+                "signature": j[1], "how_to_replay": "python3 tools/check.py C10 --replay <this file>"})
+            ctx.violations.append({"signature": j[1], "replay": replay, "why": j[2], "found_input": j[0] == "violation"})
+    for sp in specs:
+        t = sp.split(" ")[3:]
+        hist["pointers"] += len(t) // 3
+    ctx.oblige("Listener::Archive with tables: bytes and tables read back in a fresh context, real code == Tables model, "
+               "and read back == written (%d listeners)" % len(specs), bad == 0, "%d failing" % bad, reported=True)
+    return {"listeners": len(specs), "insertions": hist["pointers"]}
+
+
 def check(ctx):
     prop = Prop()
     d0 = archgen.translate(ctx)
@@ -168,6 +271,7 @@ def check(ctx):
     bad += d.run_batch(sweep)
     ctx.oblige("correspondence harness/archive.cpp (real Archiver) == Archive model: bytes and read-back of %d write sequences" % d.cases,
                bad == 0, "%d differing cases" % bad, reported=True)
+    tstats = tables_stage(ctx, exe, reg)
     s_items = archgen.gen_case(ctx.rng("sample"), 6, nobj=2)
     ctx.samples = [archgen.arc_line((1, b"MFUS", b"Morfuse Archive"), s_items)]
     cov = {
@@ -177,6 +281,7 @@ def check(ctx):
                 "(real Listener, two scripted subclasses whose Archive() runs nested calls incl. nested ArchiveObject and self "
                 "pointers), plain and safe pointers before/after/inside their targets, null pointers, position-only objects, "
                 "4% pointers to never-registered objects; distinct by SHA-1 of the lines",
+        "listener_tables": tstats,
         "item_histogram": hist, "well_formed_sequences": nwf, "max_registered_objects": maxobj,
         "model_answer_kinds": d.outkinds, "exhaustive": False,
     }
@@ -212,6 +317,13 @@ def replay(ctx, obj):
     exe = archgen.build(ctx)
     reg = archgen.class_registry(ctx, exe)
     lines = [reg] + [l for l in obj["lines"] if not l.startswith("classes")]
+    if any(l.startswith("lis ") for l in lines):
+        rc = 0
+        for sp, j in tables_run(ctx, exe, reg, [l for l in lines if l.startswith("lis ")]):
+            print("> %s\n  %s" % (sp[:300], "as the model says, read back == written" if j is None else "%s: %s" % (j[0], j[2])))
+            rc = rc or (1 if j else 0)
+        print("replay:", "still fails" if rc else "no difference")
+        return rc
     d = archgen.ADiff(ctx, Prop(), exe, AREA)
     d.base_timeout = 60
     impl, crash, info, model = d.both(lines)
